@@ -148,6 +148,15 @@ def one(world, spec, entry, store_kind):
         nodes, edges = parse_plain(open(out).read())
         os.remove(out)
         xn, solid, dmust, dmay, kept_fn = expected_graph(spec, entry)
+        # the same export once more, now that every blob is in the store: the graph describes the pipeline, not what is left to do
+        rb2, _ = b.run(entry, opts={"dds_export_graph": out})
+        if rb2.status == "ok" and os.path.exists(out):
+            nodes2, edges2 = parse_plain(open(out).read())
+            os.remove(out)
+            if nodes2 != nodes or sorted(edges2) != sorted(edges):
+                bad("warm_store_graph_differs", f"second export on the populated store: nodes {sorted(nodes2)} / {len(edges2)} edges, first export {sorted(nodes)} / {len(edges)} edges")
+        elif rb2.status != "ok":
+            bad(f"export_fails_on_warm_store|{rb2.exc}", f"second export raised {rb2.exc}: {str(rb2.excobj)[:100]}")
         cyc = has_cycle(edges)
         if cyc:
             bad("cycle" if len(set(cyc)) > 1 else "self_loop", f"the exported graph has a cycle: {' -> '.join(cyc)}")
